@@ -33,11 +33,19 @@ RULE = (
 ASSUMPTIONS = [
     "plugin computations of the grammar are chunking-invariant by definition (row-local, containment-local, "
     "window-local inside the overlap plugin's validity margins, whole-run)",
-    "mailbox capacity 1-4 only for graphs without a multi-dependency plugin downstream of a withholding plugin; "
-    "otherwise capacity = total number of source chunks + 3 (always above the lag)",
+    "mailbox capacity 1-4 only for graphs without a multi-dependency plugin that is downstream of a withholding "
+    "plugin or whose dependencies share an upstream data type (diamond: zero-duration chunks / re-chunking by "
+    "the aligner make one path run ahead, observed lag >= capacity is by design); otherwise capacity = total "
+    "number of source chunks + 3 (always above the lag)",
     "threaded runs: preemption at synchronisation operations only; process pools are not exercised",
     "loop base rows and overlap-window inputs are disjoint (documented preconditions)",
+    "numba-jitted helper functions execute as plain Python (NUMBA_DISABLE_JIT=1; same source code); their compiled "
+    "behaviour is checked by C07, C17, C18, C19",
 ]
+# Orchestration-level check: the numba-jitted helpers (split_array, diff, containment ...) run as plain Python -
+# same source, no per-dtype compilation (each generated dtype would cost seconds of JIT time per worker).
+# Their compiled behaviour is covered by C07 / C17-C19, which run with the JIT on.
+ENV = {"NUMBA_DISABLE_JIT": "1"}
 _COUNTER = itertools.count()
 
 
@@ -56,11 +64,12 @@ def st_case(draw, threaded=None, ops=graphs.ALL_OPS):
     prov = graphs.providers(spec)
     storable = [d for d in types if graphs.save_when_of(prov[d], d) > 0]
     stored = [d for d in storable if draw(st.integers(0, 2)) == 0]
-    target = draw(st.sampled_from(types))
+    derived = [t for t in types if prov[t]["op"] != "source"]
+    target = draw(st.sampled_from(derived if (derived and draw(st.integers(0, 9)) > 0) else types))
     proc = draw(st.sampled_from(["single_thread", "threaded_mailbox"])) if threaded is None else (
         "threaded_mailbox" if threaded else "single_thread")
     nchunks = sum(len(c) + 1 for c in cutsB.values()) + sum(len(c) + 1 for c in cutsA.values())
-    if graphs.has_lag(spec):
+    if graphs.has_lag(spec) or graphs.has_diamond(spec):
         cap = nchunks + 3
     else:
         cap = draw(st.sampled_from([1, 2, 3, 4, nchunks + 3]))
@@ -246,6 +255,6 @@ def steer(d, spec, prov):
 
 
 SUBCHECKS = [
-    SubCheck("single", run_case, strategy=lambda: st_case(threaded=False), quick=320, thorough=12000),
-    SubCheck("threaded", run_case, strategy=lambda: st_case(threaded=True), quick=320, thorough=12000),
+    SubCheck("single", run_case, strategy=lambda: st_case(threaded=False), quick=1600, thorough=60000),
+    SubCheck("threaded", run_case, strategy=lambda: st_case(threaded=True), quick=1200, thorough=40000),
 ]
